@@ -212,6 +212,84 @@ def run(prog, rep, tier):
     rep.ob('R02.4', bool(ok), 'R02.4|%s|unfinished-files-reported' % body.nkey, 'a non-empty unfinished list always replaces the status by UnfinishedFiles before Ok is returned' if ok else
            'repair can return a status other than UnfinishedFiles although some files were closed incomplete', body.loc())
 
+    r02_5(prog, rep)
+
+
+EXACT_READS = {'read_exact', 'read_u8', 'read_u16', 'read_u32', 'read_u64', 'read_u128', 'read_i8', 'read_i16', 'read_i32', 'read_i64',
+               'read_u16_into', 'read_u32_into', 'read_u64_into'}
+LENIENT_READS = {'read', 'read_to_end', 'read_to_string', 'read_vectored', 'read_buf', 'bytes'}
+PARSERS = [('ArchiveFileBlock', 'from'), ('ArchiveHeader', 'from'), ('ArchiveFooter', 'deserialize_from')]
+
+
+def r02_5(prog, rep):
+    """the structure parsers are all-or-error: a block / header / footer field is obtained with an exact read (read_exact, byteorder read_uN,
+    bincode deserialize: all fail with UnexpectedEof on a short source) or, for a lenient read (read, read_to_end, io::copy: return what
+    arrived), the count obtained is compared before the value is used. Otherwise a truncated field is accepted as a shorter, fabricated one."""
+    from .c13 import ok_payload_locals
+    roots = []
+    for adt, name in PARSERS:
+        bs = find_bodies(prog, 'mla', adt=adt, name=name)
+        if not bs:
+            rep.ob('R02.5', False, 'R02.5|anchor|%s::%s' % (adt, name), 'structure parser %s::%s not found' % (adt, name), '')
+        roots += bs
+    # parser level: the parsers and what they call by exact workspace calls; the Read implementations of the layer stack the source is made of
+    # are the byte transport (their own short-read discipline is C13's), not parsers
+    seen = {}
+    st = list(roots)
+    while st:
+        b0 = st.pop()
+        if b0.key in seen:
+            continue
+        seen[b0.key] = b0
+        for blk in b0.calls():
+            cands, exact = resolve_call(prog, b0, blk.term)
+            if exact and len(cands) == 1 and cands[0].pkg == 'mla' and cands[0].impl_trait not in ('std::io::Read', 'std::io::Seek', 'std::io::Write'):
+                st.append(cands[0])
+        st.extend(prog.closures_of(b0))
+    scope = list(seen.values())
+    n = 0
+    for body in sorted(scope, key=lambda b: b.nkey):
+        cnt = collections.Counter()
+        for b in body.calls():
+            t = b.term
+            cn = cnorm(t)
+            fam = None
+            if t.ctrait in ('std::io::Read', 'byteorder::ReadBytesExt') and t.cmethod in EXACT_READS:
+                fam = 'exact'
+            elif t.ctrait == 'std::io::Read' and t.cmethod in LENIENT_READS:
+                fam = 'lenient'
+            elif cn == 'std::io::copy':
+                fam = 'lenient'
+            elif 'deserialize_from' in cn or (t.cmethod in ('deserialize_from', 'deserialize') and 'bincode' in (t.cdef or '')):
+                fam = 'exact'
+            if fam is None:
+                continue
+            rep.fn(body)
+            n += 1
+            base = '%s|%s' % (body.nkey, t.cmethod or cn)
+            key = 'R02.5|%s#%d|exact-or-count-checked' % (base, cnt[base])
+            cnt[base] += 1
+            if fam == 'exact':
+                rep.ob('R02.5', True, key, '%s fails on a short source' % (t.cmethod or cn), body.loc(b.idx), sample='exact read' if n < 6 else None)
+                continue
+            pay = ok_payload_locals(body, b)
+            checked = False
+            for bl in body.blocks:
+                si = switch_info(prog, body, bl.idx)
+                if si and si['kind'] == 'bool':
+                    e = expr_of(body, si['cond'])
+                    if e[0] == 'binop' and e[1] in ('Eq', 'Ne', 'Lt', 'Le', 'Gt', 'Ge'):
+                        ls = set()
+                        for side in (e[2], e[3]):
+                            if side[0] == 'place':
+                                ls |= origins(body, [side[1][0]], through_calls=False).locals | {side[1][0]}
+                        if ls & pay:
+                            checked = True
+            rep.ob('R02.5', checked, key, 'lenient read whose count is compared before use' if checked else
+                   'a structure parser obtains a field with %s and never tests how many bytes arrived: a field cut by truncation is accepted as a shorter one '
+                   '(repair would output a name / value that the original archive does not contain)' % (t.cmethod or cn), body.loc(b.idx))
+    rep.floor('R02.5', n, 12, 'source reads in the block / header / footer parsers')
+
 
 def thorough_extra(rep, verif, repo):
     return c08.clippy_superset(rep, verif, repo, 'R02.1x', ['mla'])
